@@ -20,6 +20,7 @@ pub static SCENARIO: Scenario = Scenario {
     gen,
     judge: |run, obs| oracle::judge("C07", run, obs),
     assumptions: &["cross-set pairs are checked on tokens recorded by the other binary (outbox exchange), not issued in-process"],
+    exhaustive: &["all 56 ordered protocol pairs (run index mod 56), verbatim and relabelled, at the 3 entry points of the receiving protocol"],
 };
 
 fn is_set_a_public(p: Proto) -> bool {
